@@ -84,6 +84,8 @@ class Ctx:
         self.worst_case: dict = {}
         self.prefer = "smt"  # which z3 engine to try first ("nlsat" for genuinely polynomial identities)
         self.discard = False  # True while an *earlier* object / call history is being produced (claims are not stated)
+        self.t_start = time.time()
+        self.instance_budget = float(os.environ.get("VERIF_INSTANCE_BUDGET", "0")) or (420.0 if os.environ.get("VERIF_TIER", "quick") == "quick" else 5400.0)
 
     # ---- inputs ---------------------------------------------------------------------
     def _num(self, name, default):
@@ -187,6 +189,8 @@ class Ctx:
         numerically robust counterexample (Sym bool), tried first when the claim is refuted."""
         if self.discard:
             return
+        if self.sym and time.time() - self.t_start > self.instance_budget:
+            raise InstanceBudget(f"instance budget of {self.instance_budget:.0f} s exhausted after {len(self.claims)} obligations")
         if not self.sym:
             if self.target is not None and name != self.target:
                 return
@@ -379,6 +383,7 @@ class Check:
         self.pid = pid
         self.title = title
         self.tier = self.args.tier
+        os.environ["VERIF_TIER"] = self.tier  # read by the workers (per-instance time budget)
         self.seed = int(os.environ.get("VERIF_SEED", "0"))
         self.functions = list(functions)
         self.files = list(files)
@@ -491,7 +496,8 @@ class Check:
                 t["time_s"] = round(t["time_s"] + d["time_s"], 4)
             if rec.get("error"):
                 inconclusive.append(f"{rec['scenario']} {rec['params']}: harness error: {rec['error']}")
-                continue
+                if not rec.get("failures"):
+                    continue  # (refutations found before the instance stopped are still replayed and reported)
             n_claims += rec["n_claims"]
             n_triv += rec["n_trivial"]
             for key in rec["claim_keys"]:
@@ -804,6 +810,10 @@ class PathLimit(Exception):
     pass
 
 
+class InstanceBudget(Exception):
+    pass
+
+
 def explore(ctx, fn, max_paths=64, tag="path"):
     """Run fn() once per feasible decision sequence.  Inside fn, `bool(sym)`, `int(sym)` and
     `sym.__index__()` are answered from the current path; ctx.hyps carries the path condition.
@@ -825,6 +835,8 @@ def explore(ctx, fn, max_paths=64, tag="path"):
         state = {"pos": 0, "taken": []}
 
         def feasible(cond):
+            if time.time() - ctx.t_start > ctx.instance_budget:
+                raise InstanceBudget(f"instance budget of {ctx.instance_budget:.0f} s exhausted during path exploration")
             r = smt.check_sat(ctx.hyps + [cond], timeout_ms=10000, tag=tag + ":feasible", want_model=True)
             if r.status == "unknown":
                 r = smt.check_sat(ctx.hyps + [cond], timeout_ms=20000, tag=tag + ":feasible-nlsat", tactic="qfnra-nlsat")
